@@ -6,7 +6,7 @@ MAIN = "c02"
 MODULES = ["geom", "pos", "stubs", "step", "c02"]
 ACCESS = None
 DUMP = []
-PARALLEL = 4
+PARALLEL = 16
 
 META = {
     "functions_encoded": ["chess::game::Game::{make_move, undo_move, make_null_move, undo_null_move, set_at, remove_at, try_remove_castle_rights}",
@@ -34,14 +34,37 @@ MANIFEST = {
 }
 
 
+STUBS = [
+    ("crate::chess::zobrist::ZobristHash::toggle_piece_on_square", "c02::nop_toggle_piece"),
+    ("crate::chess::zobrist::ZobristHash::toggle_castle_rights", "c02::nop_toggle_castle"),
+    ("crate::chess::zobrist::ZobristHash::set_en_passant", "c02::nop_set_ep"),
+    ("crate::chess::zobrist::ZobristHash::toggle_side_to_play", "c02::nop_toggle_side"),
+    ("crate::engine::eval::IncrementalEvalFields::set_at", "c02::nop_eval_set"),
+    ("crate::engine::eval::IncrementalEvalFields::remove_at", "c02::nop_eval_remove"),
+]
+KINDS = ["pawn", "knight", "bishop", "rook", "queen", "king"]
+
+
+def inst(fn, kind, side):
+    name = f"c02_{fn}_{KINDS[kind]}_{'wb'[side]}"
+    attrs = ["#[kani::proof]"] + [f"#[kani::stub({a}, {b})]" for a, b in STUBS]
+    return name, "\n".join(attrs) + f"\npub fn {name}() {{ c02::{fn}({kind}, {side}); }}\n"
+
+
 def jobs(tier, seed):
-    return [
-        Job("c02_make_undo", "make_move == rules; undo_move restores all", timeout=2400, mem_gb=24, checks="functional", min_covers=3, witness=False),
-        Job("c02_null_undo", "null move / take-back", timeout=1200, mem_gb=16, checks="functional", witness=False),
-        Job("c02_nested_make_null", "make; null; undo_null; undo", timeout=2400, mem_gb=24, checks="functional", witness=False),
-        Job("c02_nested_null_make", "null; make; undo; undo_null", timeout=2400, mem_gb=24, checks="functional", witness=False),
-    ]
+    import random
+    js = [Job("c02_null_undo", "null move / take-back, any valid position", timeout=1200, mem_gb=16, checks="functional", witness=False)]
+    rnd = random.Random(seed)
+    for fn, desc in (("make_undo", "make_move == rules; undo_move restores all"), ("nested_make_null", "make; null; undo_null; undo"),
+                     ("nested_null_make", "null; make; undo; undo_null")):
+        for kind in range(6):
+            sides = (0, 1) if (tier == "thorough" or fn == "make_undo") else (rnd.randrange(2),)
+            for side in sides:
+                n, src = inst(fn, kind, side)
+                js.append(Job(n, f"{desc}; moving {KINDS[kind]}, {'white' if side == 0 else 'black'} to move, any valid position", gen=src, timeout=2400, mem_gb=16,
+                              checks="functional", witness=False, params={"moving_kind": KINDS[kind], "white_to_move": side == 0}))
+    return js
 
 
 def decode(job, vals):
-    return {"any_values_le": [int.from_bytes(bytes(v), "little") for v in vals[:16]]}
+    return None
